@@ -5,6 +5,7 @@ import (
 	"reflect"
 	"sort"
 	"strings"
+	"sync"
 
 	"github.com/bluenviron/gomavlib/v3/pkg/dialect"
 	"github.com/bluenviron/gomavlib/v3/pkg/dialects/all"
@@ -49,12 +50,17 @@ func dialectNames() []string {
 }
 
 var dialectRWs = map[string]*dialect.ReadWriter{}
+var dialectRWmu sync.Mutex
 
 func getDialect(name string) *dialect.Dialect {
 	if name == "-" {
 		return nil
 	}
 	d, ok := dialects[name]
+	if !ok {
+		c16Dialects()
+		d, ok = dialects[name]
+	}
 	if !ok {
 		panic("unknown dialect " + name)
 	}
@@ -65,6 +71,8 @@ func getDialectRW(name string) *dialect.ReadWriter {
 	if name == "-" {
 		return nil
 	}
+	dialectRWmu.Lock()
+	defer dialectRWmu.Unlock()
 	if rw, ok := dialectRWs[name]; ok {
 		return rw
 	}
